@@ -948,7 +948,7 @@ def run(ctx: Context):
     # ---- 5. tail selection and trim ---------------------------------------
     with ctx.rule("C09.5", "R1/R6", "the last segment (segnum + 1 == num_segments) uses the tail size / tail codec on "
                   "both sides, every other segment the full size; the decoded segment is trimmed to that size, then "
-                  "decrypted, then written to the consumer", expected=9) as r:
+                  "decrypted, then written to the consumer", expected=10) as r:
         def tail_select(q, var, ns_attr, tail_val, other_val, what):
             fn = idx.func(q)
             fnorm = FlowNorm(fn, depth=8)
@@ -1049,6 +1049,13 @@ def run(ctx: Context):
                   "decode -> decrypt -> deliver chain is %s" % chain)
         extra = [x for x in chain if x not in want + ["_check_for_paused", "_check_for_stopped"]]
         r.require(not extra, md, md.loc(), "callbacks %s sit in the decode -> decrypt -> deliver chain" % extra)
+        # the update path's shortcut decodes and decrypts, too
+        rd = idx.func(RET + ".decode")
+        dchain = [x.target_name().split(".")[-1] for x in registrations(rd) if x.kind in ("cb", "both")]
+        r.site(rd, None, "update decode chain " + " ".join(dchain))
+        r.require(any(c for c in calls_in_func(rd, "_decode_blocks")) and "_decrypt_segment" in dchain, rd, rd.loc(),
+                  "Retrieve.decode (old boundary segments of an in-place update) chains %s behind _decode_blocks; the "
+                  "old bytes merged into the new segments must be decrypted plaintext" % dchain)
         ss = idx.func(RET + "._set_segment")
         sp_ = first_positional_params(ss)[0]
         for cc in calls_in_func(ss, "write"):
@@ -1845,7 +1852,7 @@ def run(ctx: Context):
                   "work it started completes (never None, never falling off the end), so the caller's Deferred cannot "
                   "fire before the shares are written / the bytes delivered; _update dispatches every update to the "
                   "re-encode path or to the in-place chain fetch -> decode -> build uploadable and publish",
-                  expected=26) as r:
+                  expected=28) as r:
         OPS = [MFV + "." + x for x in ("update", "_update", "_do_modify_update", "_do_update_update", "_update_servermap",
                                        "_decode_and_decrypt_segments", "_build_uploadable_and_finish", "overwrite",
                                        "_overwrite", "_upload", "modify", "_modify", "_modify_and_retry", "_modify_once",
@@ -1886,6 +1893,58 @@ def run(ctx: Context):
                           "is not returned; modify() then reports success before the new contents are written")
         regs = [x for x in registrations(mo) if x.kind == "cb" and x.target_name() == ap.name]
         r.require(bool(regs), mo, mo.loc(), "%s is not registered on the download Deferred of _modify_once" % ap.name)
+        # ... and the only way out of it without an upload is "the modifier changed nothing"
+        apn = FlowNorm(ap, depth=8)
+        acfg = ap.cfg()
+        old_p = first_positional_params(ap)[0]
+        mcalls = [(n, c) for n in acfg.nodes for c in node_calls(n) if isinstance(c.func, ast.Name)
+                  and c.func.id in mo.params and c.args and attr_path(c.args[0]) == old_p]
+        if len(mcalls) != 1:
+            raise AnchorVanished("_modify_once._apply no longer calls the modifier on the old contents once")
+        M_ = N(ap).norm(mcalls[0][1])
+        r.site(ap, mcalls[0][1], "no-change test")
+
+        def unchanged(n, lab):
+            f = apn.edge_fact(n, lab)
+            if not f:
+                return False
+            return (f[0] == "is" and {f[1], f[2]} == {"None", M_}) or (f[0] == "==" and {f[1], f[2]} == {M_, old_p})
+        for n in acfg.nodes:
+            if is_return(n) and not has_call("_upload")(n) and _not_a_deferred(ap, apn, n, n.ast.value):
+                for (t, w) in find_path_avoiding(acfg, lambda x, _n=n: x is _n, gate_edge=unchanged):
+                    r.violation(ap, ap.loc(n.ast), "modify() can finish without uploading although the modifier "
+                                "returned new contents (path: %s)" % w.brief(), w)
+        for n in acfg.nodes:
+            for c in calls_at(n, "_upload"):
+                if not c.args or not isinstance(c.args[0], ast.Name):
+                    continue
+                for dnode_id in apn.rd.get(n.id, {}).get(c.args[0].id, ()):
+                    if dnode_id < 0:
+                        continue
+                    dn = acfg.nodes[dnode_id]
+                    at, v = _def_of(apn, dn, apn._def_value(dn, c.args[0].id))
+                    what = apn.norm(at, v.args[0]) if isinstance(v, ast.Call) and call_tail(v) == "MutableData" and v.args else None
+                    if what == M_:
+                        continue
+                    if what == old_p:
+                        for (t, w) in find_path_avoiding(acfg, lambda x, _d=dn: x is _d, gate_edge=unchanged):
+                            r.violation(ap, ap.loc(dn.ast), "the old contents are uploaded on a path where the modifier's "
+                                        "result was not found unchanged (path: %s)" % w.brief(), w)
+                        continue
+                    r.violation(ap, ap.loc(dn.ast), "modify() uploads %s instead of the contents the modifier returned" % (
+                        src(ap, v) if v is not None else c.args[0].id))
+        mr = idx.func(MFV + "._modify_and_retry")
+        steps = []
+        for x in registrations(mr):
+            if x.kind == "cb":
+                body = x.target
+                if isinstance(body, ast.Lambda):
+                    steps += [call_tail(c) for c in ast.walk(body.body) if isinstance(c, ast.Call)]
+                else:
+                    steps.append(x.target_name().split(".")[-1])
+        r.site(mr, None, "modify attempt chained behind the servermap update")
+        r.require("_modify_once" in steps, mr, mr.loc(), "_modify_and_retry no longer runs _modify_once behind the "
+                  "servermap update (callbacks: %s); modify() then succeeds without applying the modifier" % steps)
         # _update: the dispatch
         up = idx.func(MFV + "._update")
         upn = FlowNorm(up, depth=8)
@@ -2321,6 +2380,69 @@ def _not_a_deferred(fn, fnorm, node, v):
         return "%s, which is not a Deferred created for this operation" % pth
     return src(fn, v)
 
+    # ---- 18. a ranged read is started for the range that was asked for ---------------------------------------
+    with ctx.rule("C09.18", "R6", "Retrieve.download(consumer, offset, size) starts the download of exactly "
+                  "[offset, offset + size) (size=None: to the end of the file) and _start_download records that range "
+                  "before the segment range is computed; decided by evaluating both over boundary reads",
+                  expected=2) as r:
+        _need("the segment size of C09.8", S3)
+        S = S3
+        dl = idx.func(RET + ".download")
+        sd = idx.func(RET + "._start_download")
+        dps = first_positional_params(dl)          # consumer, offset, size
+        sps = first_positional_params(sd)
+        if len(dps) < 3 or len(sps) < 3:
+            raise AnchorVanished("Retrieve.download(consumer, offset, size) / _start_download(consumer, offset, size) changed")
+        starts = calls_in_func(dl, "_start_download")
+        setups = calls_in_func(sd, "_setup_encoding_parameters")
+        if not starts or not setups:
+            raise AnchorVanished("download -> _start_download -> _setup_encoding_parameters")
+        r.site(dl, starts[0], "range handed to _start_download")
+        r.site(sd, setups[0], "range recorded for the segment arithmetic")
+        pts = _boundary_points(S)
+        bad, runs = None, 0
+        for D in [x for x in pts if x >= 1][::2] + [1, 2]:
+            for off in [x for x in pts if x < D][::2] + [D - 1]:
+                for size in (None, 1, 2, D - off):
+                    eff = D - off if size is None else size
+                    if eff < 1 or off + eff > D or bad:
+                        continue
+                    what = "read(offset=%d, size=%s) of a %d-byte file" % (off, size, D)
+                    sim = _Sim(idx, observe={"_start_download", "_done"})
+                    heap = {"self": {"_verify": False, "_data_length": D}, "consumer": {}}
+                    outs = sim.run(dl, {"self": _Ref("self"), dps[0]: _Ref("consumer"), dps[1]: off, dps[2]: size}, heap)
+                    runs += 1
+                    got = [(call_tail(c), a, k) for (_f, c, a, k) in sim.seen]
+                    if len(outs) != 1:
+                        bad = (dl, starts[0], "%s: download %s" % (what, "raises" if not outs else "could not be evaluated"))
+                    elif [g[0] for g in got] != ["_start_download"]:
+                        bad = (dl, starts[0], "%s: download calls %s; a read of %d byte(s) must be started, not finished "
+                               "at once" % (what, [g[0] for g in got] or "nothing", eff))
+                    else:
+                        a, k = got[0][1], got[0][2]
+                        vals = dict(zip(sps, a))
+                        vals.update(k)
+                        if (vals.get(sps[1]), vals.get(sps[2])) != (off, eff) or vals.get(sps[0]) != _Ref("consumer"):
+                            bad = (dl, starts[0], "%s: the download is started for offset=%s size=%s, the caller asked "
+                                   "for [%d, %d)" % (what, vals.get(sps[1]), vals.get(sps[2]), off, off + eff))
+                    if bad:
+                        continue
+                    sim = _Sim(idx, observe={"_setup_encoding_parameters", "_setup_download", "loop"})
+                    heap = {"self": {"_data_length": D}, "consumer": {}}
+                    outs = sim.run(sd, {"self": _Ref("self"), sps[0]: _Ref("consumer"), sps[1]: off, sps[2]: eff}, heap)
+                    runs += 1
+                    snap = [h["self"] for ((_f, c, _a, _k), h) in zip(sim.seen, sim.seen_heap)
+                            if call_tail(c) == "_setup_encoding_parameters"]
+                    if len(outs) != 1 or len(snap) != 1:
+                        bad = (sd, setups[0], "%s: _start_download %s" % (what, "raises" if not outs else
+                                                                           "computes the segment range %d times" % len(snap)))
+                    elif (snap[0].get("_offset", UNK), snap[0].get("_read_length", UNK)) != (off, eff):
+                        bad = (sd, setups[0], "%s: the segment range is computed for offset=%s, length=%s" % (
+                            what, snap[0].get("_offset", UNK), snap[0].get("_read_length", UNK)))
+        r.count(runs)
+        if bad:
+            r.violation(bad[0], bad[0].loc(bad[1]), bad[2])
+
 
 def _gathered(fn, node, e, role):
     """Roles, in order, of the Deferreds handed to gatherResults: a list literal, or a local list that is created
@@ -2604,8 +2726,11 @@ def _writev_offsets(idx, fn, fnorm):
 
 def _slice_bounds(idx, fn, fnorm, node, e):
     if isinstance(e, ast.Subscript) and isinstance(e.slice, ast.Slice):
-        lo = _fold_at(idx, fn, fnorm, node, e.slice.lower) if e.slice.lower is not None else 0
-        hi = _fold_at(idx, fn, fnorm, node, e.slice.upper) if e.slice.upper is not None else None
+        try:
+            lo = _fold_at(idx, fn, fnorm, node, e.slice.lower) if e.slice.lower is not None else 0
+            hi = _fold_at(idx, fn, fnorm, node, e.slice.upper) if e.slice.upper is not None else None
+        except NotConstant as ex:
+            raise AnalysisError("slice bounds of %s in %s are not constant (%s)" % (src(fn, e), short(fn), ex))
         return lo, hi
     return None, None
 
